@@ -296,9 +296,25 @@ func NewTaskState(id, mapStrategy int, mapSeed uint64) *TaskState {
 	return &TaskState{ID: id, mapStrategy: mapStrategy, mapSeed: mapSeed}
 }
 
+var idleYields, idleLimit atomic.Int64
+
+// SetIdleLimit arms (n > 0) or disarms the statement budget for instrumented code that runs
+// with no scheduler attached, and resets the count.
+func SetIdleLimit(n int64) { idleLimit.Store(n); idleYields.Store(0) }
+
+// ResetIdle restarts the count.
+func ResetIdle() { idleYields.Store(0) }
+
 // Yield is inserted before every statement of instrumented functions (C14 builds).
 func Yield(site int) {
 	if !sch.attached.Load() {
+		// outside a scheduler: a runaway of the code under test (a loop that never ends
+		// because an earlier call corrupted shared state, say) is stopped after IdleLimit
+		// statements since the last ResetIdle
+		if lim := idleLimit.Load(); lim > 0 && idleYields.Add(1) > lim {
+			idleYields.Store(0)
+			panic(&Sentinel{Kind: "hang", Value: lim + 1, Limit: lim})
+		}
 		return
 	}
 	if sch.current != nil {
